@@ -161,7 +161,7 @@ class walk_tree(object):
                             self._check_seg_usage(child, seg_data, seg_count, cur_line, ls_id, errh)
                             # Remove any previously missing errors for this segment
                             self.mandatory_segs_missing = [x for x in self.mandatory_segs_missing if x[0] != child]
-                            self._flush_mandatory_segs(errh, child.pos)
+                            self._flush_mandatory_segs(errh, child.pos, child.parent)
                             return (child, pop_node_list, push_node_list)  # segment node
                         elif child.usage == 'R' and self.counter.get_count(child.x12path) < 1:
                             fake_seg = pyx12.segment.Segment('%s' % (child.id), '~', '*', ':')
@@ -248,19 +248,23 @@ class walk_tree(object):
         errh.add_seg(orig_node, seg_data, seg_count, cur_line, ls_id)
         errh.seg_error('1', err_str, None)
 
-    def _flush_mandatory_segs(self, errh, cur_pos=None):
+    def _flush_mandatory_segs(self, errh, cur_pos=None, cur_parent=None):
         """
         Handle error reporting for any outstanding missing mandatory segments
 
         @param errh: Error handler
         @type errh: L{error_handler.err_handler}
         """
+        def same_spot(seg_node):
+            # a sibling of the matched segment at the same position: it may still follow
+            # (positions are only comparable within one parent loop)
+            return seg_node.pos == cur_pos and (cur_parent is None or seg_node.parent is cur_parent)
         for (seg_node, seg_data, err_cde, err_str, seg_count, cur_line, ls_id) in self.mandatory_segs_missing:
             # Create errors if not also at current position
-            if seg_node.pos != cur_pos:
+            if not same_spot(seg_node):
                 errh.add_seg(seg_node, seg_data, seg_count, cur_line, ls_id)
                 errh.seg_error(err_cde, err_str, None)
-        self.mandatory_segs_missing = [x for x in self.mandatory_segs_missing if x[0].pos == cur_pos]
+        self.mandatory_segs_missing = [x for x in self.mandatory_segs_missing if same_spot(x[0])]
 
     def _is_loop_match(self, loop_node, seg_data, errh, seg_count, cur_line, ls_id):
         """
